@@ -11,23 +11,39 @@ import random
 PID = "C10"
 LEVEL = "proof"
 LEAN_MODULES = ["AsynqModel.Theorems.C10"]
-THEOREMS = [
+# the claims of the property (each a statement over all kinds / states / histories with a proof that is more than one
+# unfolding of the model)
+HEADLINE = [
     "AsynqModel.Futures.C10_spec_holds",
+    "AsynqModel.Futures.C10_spec_enforces_runs",
+    "AsynqModel.Futures.C10_spec_enforces_outcome",
+    "AsynqModel.Futures.C10_spec_enforces_read",
     "AsynqModel.Futures.C10_single_assignment",
-    "AsynqModel.Futures.C10_failed_set_noop",
-    "AsynqModel.Futures.C10_reads_stable",
+    "AsynqModel.Futures.C10_stable_until_reset",
+    "AsynqModel.Futures.C10_const_complete",
+    "AsynqModel.Futures.C10_runs_step",
+    "AsynqModel.Futures.C10_provider_once_epoch",
     "AsynqModel.Futures.C10_provider_once",
+    "AsynqModel.Futures.C10_provider_once_count",
     "AsynqModel.Futures.C10_notify_once_after_visible",
     "AsynqModel.Futures.C10_notify_count",
     "AsynqModel.Futures.C10_subs_after_completion",
     "AsynqModel.Futures.C10_passive_subs_stay",
-    "AsynqModel.Futures.C10_unsubscribe",
-    "AsynqModel.Futures.C10_const_complete",
+    "AsynqModel.Futures.C10_unsubscribed_not_notified",
 ]
+# hold by construction of the model (one unfolding of `step`); audited for axioms like the others, but NOT claims about
+# the behaviour: their content is the correspondence run.  (The former C10_failed_set_noop / C10_reads_stable are now
+# the lemma `computed_step` in Proofs/Futures.lean, used by C10_stable_until_reset.)
+BY_CONSTRUCTION = [
+    "AsynqModel.Futures.C10_unsubscribe",
+    "AsynqModel.Futures.C10_set_error_none",
+]
+THEOREMS = HEADLINE + BY_CONSTRUCTION
 BUILDS = {"quick": ["py"], "thorough": ["py", "cy"]}
 RULE = ("random operation histories (length 1-40, ops value/error/call/is_computed/set_value/set_error/reset_unsafe/"
         "subscribe/unsubscribe) on each future kind (Future ok/raising/self-completing provider, ConstFuture, ErrorFuture, "
-        "AsyncTask returning/raising); a subscriber is well-behaved, raising (three exception classes), one-shot "
+        "AsyncTask returning/raising without blocking); error token 0 = None: set_error(None) (about 1 in 8 set_error "
+        "operations) and ErrorFuture(None) (1 in 8 ErrorFutures); a subscriber is well-behaved, raising (three exception classes), one-shot "
         "(unsubscribes itself while notified), unsubscribes another handler (earlier, later, itself, unknown), subscribes "
         "a new handler, or re-enters set_value/set_error; value and error tokens stand for exotic objects (None, 0, '', False, "
         "__eq__-always-true, an exception instance as a value, a future as a value, the future itself, an object whose "
@@ -48,6 +64,11 @@ ASSUMPTIONS = [
     "a handler is subscribed at most once (ids are distinct); a handler that another handler unsubscribes before its own "
     "turn in the same notification round, and a handler subscribed during the round, may or may not be notified in it "
     "(the code notifies a snapshot: the former yes, the latter no - the model says so, the observer accepts both)",
+    "an error handed to set_error / ErrorFuture is an exception instance or None (None is MODELLED: the future is then "
+    "complete with the value None, Op.setErrorNone / Kind.errorNone; any other non-exception object, e.g. a str, makes "
+    "value() raise TypeError from the raise statement while error() returns the object - outside the statement)",
+    "a subscriber does not call reset_unsafe() on the future that is notifying it (value() of that very call would return "
+    "the internal 'not computed' marker; reset_unsafe is documented as never to be used normally)",
     "single thread; completion paths of batches and batch items are C11's model - here only their notification rounds "
     "are judged (family futsubs, same Lean clause notifiedAll, no theorem about how they complete)",
 ]
@@ -70,7 +91,7 @@ def kind_arg(rng, kind):
     if kind == "taskErr":
         return rng.choice(TASK_RAISABLE)
     if kind == "error":
-        return rng.randint(1, NERRS)
+        return 0 if rng.random() < 0.125 else rng.randint(1, NERRS)      # 0 = ErrorFuture(None)
     if kind == "const":
         return rng.randint(0, NVALS - 3) if rng.random() < 0.8 else rng.choice([8, 9])   # 7 = "the future itself"
     return rng.randint(0, NVALS)
@@ -128,7 +149,7 @@ def gen_op(rng, ids, allow_reset=True, plain=False):
     if o == "setValue":
         return [o, rng.randint(0, NVALS)]
     if o == "setError":
-        return [o, rng.randint(1, NERRS)]
+        return [o, 0 if rng.random() < 0.125 else rng.randint(1, NERRS)]      # 0 = set_error(None)
     if o == "subscribe":
         return ids.subscribe_op(rng, plain)
     if o == "unsubscribe":
@@ -157,7 +178,7 @@ def gen_case(rng, size=None):
     return case
 
 
-COMPLETERS = [["value"], ["error"], ["call"], ["setValue", 2], ["setError", 2]]
+COMPLETERS = [["value"], ["error"], ["call"], ["setValue", 2], ["setError", 2], ["setError", 0]]
 
 
 def burst_case(rng, n, kind=None):
@@ -202,13 +223,13 @@ def plan(tier, seed):
     n = 1500 if tier == "quick" else 40000
     cases = corpus()
     # every kind x every single op and every pair of distinct op kinds (small exhaustive core)
-    basic = [["value"], ["error"], ["call"], ["isComputed"], ["setValue", 2], ["setError", 2], ["reset"],
+    basic = [["value"], ["error"], ["call"], ["isComputed"], ["setValue", 2], ["setError", 2], ["setError", 0], ["reset"],
              ["subscribe", 1, "good"], ["subscribe", 2, "raising"]]
-    for k in KINDS:
+    for k in KINDS + ["errorNone"]:
         for a in basic:
             for b in basic:
                 for c in ([["value"], ["error"]] if tier == "quick" else basic):
-                    cases.append({"kind": [k, 1], "ops": [[*a], [*b], [*c]]})
+                    cases.append({"kind": ["error", 0] if k == "errorNone" else [k, 1], "ops": [[*a], [*b], [*c]]})
     cases += [suspended_case(o, c, subs) for o in ("value", "error") for c in (False, True)
               for subs in ([], [0], [1], [0, 0], [1, 0], [0, 1, 0])]
     # every kind x every pair of subscriber behaviours (+ a plain third subscriber) x completion, reset, second completion
@@ -219,7 +240,8 @@ def plan(tier, seed):
             continue
         for a in behs:
             for b in behs:
-                for comp in ([["value"]] if tier == "quick" else [["value"], ["error"], ["setValue", 2], ["setError", 2]]):
+                for comp in ([["value"]] if tier == "quick" else [["value"], ["error"], ["setValue", 2], ["setError", 2],
+                                                                  ["setError", 0]]):
                     b2 = ["resub", 500002] if b[0] == "resub" else b
                     cases.append({"kind": [k, 1], "family": "behpair",
                                   "ops": [["subscribe", 1] + a, ["subscribe", 2] + b2, ["subscribe", 3, "good"], list(comp),
@@ -461,7 +483,7 @@ class Env(object):
             return
         self.vals = {0: None, 1: ("v", 1), 2: 0, 3: "", 4: EqAll(), 5: ValueError("a value, not an error"),
                      6: futures.ConstFuture(("inner",)), 7: ("placeholder for the future itself",), 8: Hostile(), 9: False}
-        self.errs = {1: UserErr("e1"), 2: FalsyErr("e2"), 3: EqAllErr("e3"), 4: BaseOnlyErr("e4"),
+        self.errs = {0: None, 1: UserErr("e1"), 2: FalsyErr("e2"), 3: EqAllErr("e3"), 4: BaseOnlyErr("e4"),
                      5: StopIteration("e5"), 6: HostileReprErr("e6")}
         self.cblog = []
         self.handlers = {}
@@ -469,7 +491,7 @@ class Env(object):
 
     def _index(self):
         self.val_tok = {id(v): k for k, v in self.vals.items() if v is not None}
-        self.err_tok = {id(e): k for k, e in self.errs.items()}
+        self.err_tok = {id(e): k for k, e in self.errs.items() if e is not None}
 
     def set_self(self, fut):
         self.vals[7] = fut
@@ -556,6 +578,8 @@ def beh_str(beh):
 def op_str(op):
     if op[0] == "subscribe":
         return "subscribe %d %s" % (op[1], beh_str(op[2:]))
+    if op[0] == "setError" and op[1] == 0:
+        return "setErrorNone"
     return " ".join(str(x) for x in op)
 
 
@@ -629,7 +653,7 @@ def run_case1(case):
         raise ValueError(kind)
     env.set_self(fut)
 
-    lines = ["(case futures %d %s %d)" % (case["id"], kind, arg)]
+    lines = ["(case futures %d %s %d)" % (case["id"], "errorNone" if (kind, arg) == ("error", 0) else kind, arg)]
     completions = 0
     behs = set()
     was = fut.is_computed()
@@ -679,7 +703,7 @@ def run_case1(case):
         lines.append("(obs (%s) %s (%s) %s %d)" % (op_str(op), res, cbs, env.peek(fut), runs[0]))
     lines.append("(end)")
     feats = ["kind=" + kind, "len<=%d" % next(b for b in (1, 3, 8, 20, 40, 10**9) if len(case["ops"]) <= b)]
-    feats += sorted({"op=" + o[0] for o in case["ops"]})
+    feats += sorted({"op=" + op_str(o).split()[0] for o in case["ops"]})
     feats += sorted("sub=" + b for b in behs)
     feats.append("completions=%d" % min(completions, 3))
     if case.get("family"):
